@@ -142,6 +142,7 @@ func runC04(c *Ctx) {
 	makeMObj := makeM.Object().(*types.Func)
 	chooseObj := choose.Object().(*types.Func)
 	sortitionFn := w.Fn(uconPkg, "", "sortition")
+	pShapes := map[string][]string{}
 	for _, fn := range []*ssa.Function{vs, vvs, vvp} {
 		c.sites++
 		var bad []string
@@ -177,9 +178,17 @@ func runC04(c *Ctx) {
 			if p, ok := stripConv(stakeArg).(*ssa.Parameter); !ok || p.Name() != "stake" {
 				bad = append(bad, "the weight passed to choose is not the stake parameter")
 			}
+			sh := termOf(pArg, 8)
+			pShapes[sh] = append(pShapes[sh], fn.Name())
 		}
 		c.Check(fname(fn)+"#same-message-p-choose", fn.Pos(), len(bad) == 0, ifelse(len(bad) == 0, "MakeM(seed, role, index), p = threshold/totalStake, choose(hash, stake, p)", strings.Join(bad, "; ")+": prover and verifier compute different seat counts"))
 	}
+	var shapeList []string
+	for sh, fns := range pShapes {
+		shapeList = append(shapeList, strings.Join(fns, "/")+": "+sh)
+	}
+	sort.Strings(shapeList)
+	c.Check("consensus/ucon#one-probability-expression", vs.Pos(), len(pShapes) == 1, ifelse(len(pShapes) == 1, "prover and both verifiers compute p by the same expression: "+strings.Join(shapeList, ""), "prover and verifiers compute the selection probability differently ("+strings.Join(shapeList, " | ")+"): an honest credential does not verify, or a dishonest one does"))
 	// sortition forwards to choose with the VRF value
 	okS := false
 	for _, ci := range callsTo(sortitionFn, chooseObj) {
